@@ -342,7 +342,9 @@ def run(ctx, res):
         negs.append("%s @x0 start\nif %s @x0 c\n%s @x0 x\n%s @x0 after\n" % (hp, hp, hp, hp))
         negs.append("%s @x0 one\nfi\n%s @x0 two\n" % (hp, hp))
         for t in texts[: (200 if ctx.thorough else 40)]:
-            negs.append(unbalance(rng, t))
+            # (a first line keeps an indented keyword off position 0, where pest tests !KW_LIST before the
+            # implicit skip and would run the keyword line as a command -- its status is not the oracle's business)
+            negs.append("%s @x0 start\n" % hp + unbalance(rng, t))
         p_neg = C.write_cases("c14_neg.txt", [C.case("parse", t) for t in negs])
         m_neg = C.run_model(ctx.model["C14"], p_neg)
         p_negr = C.write_cases("c14_negrun.txt", [C.case("run", t, WFUEL) for t in negs])
